@@ -36,9 +36,15 @@ def generate(ctx):
         ctx.add(('parse_json_path %s' if t[:1] == b'$' else 'parse_key_paths %s') % gen.hexarg(t), kind='extreme')
     ctx.deep = []
     depths = [100, 128, 129, 200, 255, 256, 257, 300, 500, 1000, 2000, 5000, 10000, 20000, 50000, 100000] + ([200000, 500000] if not ctx.quick else [])
+    known = {k['class']: k for k in core.load_known() if k.get('property') == 'C20' and k.get('status') == 'open' and k.get('class')}
     for sub in ENTRY:
         for kind in ('arr', 'obj'):
-            for n in depths:
+            ns = set(depths)
+            k = known.get('deep-recursion-%s' % sub)
+            if k and 'min_depth_by_kind' in k:
+                # the deepest document that is known to go through on the unchanged tree must still go through
+                ns.add(k['min_depth_by_kind'][kind] - 1)
+            for n in sorted(ns):
                 ctx.deep.append((sub, n, kind))
 
 
@@ -70,7 +76,7 @@ def judge(ctx):
                 first_bad[key] = (n, o)
             cls = 'deep-recursion-%s' % sub
             k = known.get(cls)
-            if k and o.startswith('abort') and n >= k.get('min_depth', 1 << 62):
+            if k and o.startswith('abort') and n >= k.get('min_depth_by_kind', {}).get(kind, k.get('min_depth', 1 << 62)):
                 ctx.known_hits[cls] = ctx.known_hits.get(cls, 0) + 1
             else:
                 ctx.violate('a nested document brings the call down' if o.startswith('abort') else 'a nested document makes the call panic',
